@@ -139,7 +139,7 @@ TRACE_INVS = ["C01_AtMostOnce", "C01_RealTimeFIFO", "C01_NoOverlap", "C01_Fold",
 # invariants that speak for more than the property they are named after
 INV_PROPS = {"C10_TicksAfterStreamEnd": ["C10", "C13"],
              # a starved mailbox: calls do not resolve (C02), a stop request - also the actor's own - is not honoured and its ticks are not handled (C04, C15); a starved stream: C13
-             "C13_FairSelect": ["C13", "C02", "C04", "C15"]}
+             "C13_FairSelect": ["C13", "C02", "C04", "C05", "C15"]}
 
 
 def validate_shard(traces, dev, workdir, tag, timeout=1500, profile="debug", stop=None, note=None, max_rounds=12):
